@@ -10,6 +10,7 @@ import (
 	"fmt"
 	"io"
 	"strings"
+	"sync"
 	"sync/atomic"
 	"testing/synctest"
 	"time"
@@ -191,8 +192,11 @@ func enumScripts(n, l int, ctx bool) [][]sev {
 			return resp && !dup
 		case "cancel":
 			// C19 quantifies over cancellation versus response arrival; a
-			// request whose write is still blocked is outside it
-			return !canc && wrote
+			// request whose write is still blocked is outside it. A request
+			// that has not been written because it is queued behind another
+			// one (client pipelining) is inside: the run-time check in apply
+			// tells the two apart.
+			return !canc
 		case "unknown":
 			return !unk
 		}
@@ -366,6 +370,12 @@ func runScript(script []sev, v schedVariant, race bool) schedResult {
 		req, _ := wire.DecodeReq(v.hdr, smA.Frame(wi), false)
 		return req.Seq, true
 	}
+	var relMu sync.Mutex // the last two events of a race script are applied concurrently
+	released := map[int]bool{}
+	wroteOK := map[int]bool{}
+	isReleased := func(i int) bool { relMu.Lock(); defer relMu.Unlock(); return released[i] }
+	isWroteOK := func(i int) bool { relMu.Lock(); defer relMu.Unlock(); return wroteOK[i] }
+	anyCancel := false
 	var canaries []*canary
 	pump := func() {
 		for _, o := range ops {
@@ -397,7 +407,16 @@ func runScript(script []sev, v schedVariant, race bool) schedResult {
 			if e.kind == "wfail" {
 				err = errInjectedWrite
 			}
-			return smA.Release(wi, err)
+			if smA.Release(wi, err) {
+				relMu.Lock()
+				released[e.i] = true
+				if err == nil {
+					wroteOK[e.i] = true
+				}
+				relMu.Unlock()
+				return true
+			}
+			return false
 		case "resp", "err", "dup":
 			seq, _ := seqOf(e.i)
 			r := wire.Res{Seq: seq}
@@ -410,6 +429,13 @@ func runScript(script []sev, v schedVariant, race bool) schedResult {
 		case "cancel":
 			if ops[e.i].cancel == nil {
 				return false
+			}
+			if !isReleased(e.i) {
+				// not written yet: only a request still queued behind an
+				// earlier, gated write (pipelining) may be cancelled here
+				if !v.pipeline || writeOf(e.i) >= 0 {
+					return false
+				}
 			}
 			ops[e.i].cancelAt = time.Since(t0)
 			ops[e.i].cancelled = true
@@ -449,6 +475,14 @@ func runScript(script []sev, v schedVariant, race bool) schedResult {
 		}
 		synctest.Wait()
 		pump()
+		// C19: the abandonment of one call does not keep another call, whose
+		// request was written and whose response has now arrived, from returning
+		if (e.kind == "resp" || e.kind == "err") && anyCancel && isWroteOK(e.i) && !ops[e.i].cancelled && ops[e.i].blocking() && atomic.LoadInt32(&ops[e.i].returned) == 0 {
+			bad("C19", "C19/sched/sibling-not-completed", fmt.Sprintf("%s (op %d) has not returned although its request was written and its response has arrived, after another call had been abandoned by its context (script %s, %s)", ops[e.i].form, e.i+1, scriptString(script), v))
+		}
+		if e.kind == "cancel" {
+			anyCancel = true
+		}
 		// C19: a cancelled context call must have returned by now
 		if e.kind == "cancel" {
 			o := ops[e.i]
